@@ -92,10 +92,10 @@ MkOkDef(f, d)       == \A m \in Masks : Sem(f, ValOf(m)) = SemDnf(d, ValOf(m))
 ClSet(c)      == {c[j] : j \in 1..Len(c)}
 Neg(S)        == {-t : t \in S}
 Consistent(S) == \A t \in S : -t \notin S
-Shape(C)      == \E ci \in C, cj \in C : ci # cj /\ cj # {} /\ Neg(cj) \subseteq ci
+Shape(C)      == \E cj \in C : cj # {} /\ LET n == Neg(cj) IN \E ci \in C : ci # cj /\ n \subseteq ci
 ClausesOf(d)  == {ClSet(d[i]) : i \in 1..Len(d)}
 
-Cap == 400     \* beyond this many clauses the shape test is not attempted and the answer is "reachable"
+Cap == 200     \* beyond this many clauses the shape test is not attempted and the answer is "reachable"
 OrReach(x, y)  == LET C == ClausesOf(x) \cup ClausesOf(y) IN Cardinality(C) > Cap \/ Shape(C)
 AndReach(x, y) == IF Len(x) * Len(y) > Cap THEN TRUE
                   ELSE Shape({S \in {a \cup b : a \in ClausesOf(x), b \in ClausesOf(y)} : Consistent(S)})
